@@ -163,6 +163,7 @@ def runCfg (cfg : String) (tbl : List (Str × Str)) (ops : List CacheOp) : Optio
   | ["scns"] => some (runOut (storeCOps (storeCfg tbl false) specOps) (storeCInit (storeCfg tbl false) specOps []) ops)
   | ["mem+file"] => some (runOut (combineOps memCOps (fileCOps (fileCfg tbl id some))) ([], []) ops)
   | ["no+mem"] => some (runOut (combineOps noCOps memCOps) ((), []) ops)
+  | ["ifhas+mem", a] => some (runOut (combineOps (ifHasOps [dch a] memCOps) memCOps) ([], []) ops)
   | ["ifhas", a] => some (runOut (ifHasOps [dch a] memCOps) [] ops)
   | ["ifhasnot", a] => some (runOut (ifHasNotOps [dch a] memCOps) [] ops)
   | ["attreq", a, v] => some (runOut (attrCondOps (dch a) (dch v) true memCOps) [] ops)
